@@ -22,6 +22,7 @@ MUTANTS = [
     ("M_double_dec", "P_AgedExactly", "MC_Cache"),
     ("M_derived_now", "P_AgedExactly", "MC_Cache"),
     ("M_neg_posbound", "P_BoundsRespected", "MC_Cache_classes"),
+    ("M_first_auth", "P_BoundsRespected", "MC_Cache_classes"),
     ("M_tc_cached", "P_BoundsRespected", "MC_Cache_classes"),
     ("M_err_forever", "P_BoundsRespected", "MC_Cache_classes"),
     ("M_ad_leak_do", "P_NoDnssecLeak", "MC_Cache"),
@@ -84,7 +85,7 @@ def _run(ctx, thorough, tmp_cfgs):
     for l in LABELS:
         ctx.coverage_actions[l] = (1, 1)
     # the invariants have teeth: every seeded mutant of the spec is caught
-    muts = MUTANTS if thorough else MUTANTS[:1] + MUTANTS[2:4] + MUTANTS[5:6]
+    muts = MUTANTS if thorough else MUTANTS[:1] + MUTANTS[2:4] + MUTANTS[5:7]
     for mut, prop, base in muts:
         cfg = "%s_m%s_%s" % (base, tag, mut)
         tmp_cfgs.append(_cfg_variant(ctx, base, cfg, {"Mut": '= {"%s"}' % mut}))
